@@ -29,9 +29,9 @@ fn eligible(d: &crate::registry::Dyn) -> bool {
 
 fn jobs(plan: &Plan) -> Vec<Job> {
     let t = plan.tier;
-    let mut v = entry_jobs(plan, "C18", "accounting", t.pick(14, 500, 1), eligible);
-    v.extend(entry_jobs(plan, "C18", "dominance", t.pick(8, 200, 1), |d| eligible(d) && d.flags.model));
-    v.extend(stack_jobs(plan, "C18", "stack-accounting", t.pick(4, 100, 0), eligible));
+    let mut v = entry_jobs(plan, "C18", "accounting", t.pick(28, 500, 1), eligible);
+    v.extend(entry_jobs(plan, "C18", "dominance", t.pick(16, 200, 1), |d| eligible(d) && d.flags.model));
+    v.extend(stack_jobs(plan, "C18", "stack-accounting", t.pick(12, 100, 0), eligible));
     v
 }
 
